@@ -7,3 +7,7 @@
 ;@ghost convtbl (Array Int Bool)
 ; ridDone = the index iterator reported that it is exhausted on its last Next
 ;@ghost ridDone Bool
+(declare-fun ptype (Int) Int)
+(declare-fun pchild (Int Int) Int)
+(declare-fun pcols (Int) Int)
+;@ghost selsch (Array Int Int)
